@@ -12,9 +12,9 @@ SIZES = {'small': (0, 3000), 'medium': (3000, 120000), 'large': (120000, 400000)
 
 
 def pick_size(rng, size):
-    lo, hi = SIZES[size]
-    return rng.randint(lo, hi)
-
-
-def hist_add(meta, key, val):
-    meta.setdefault(key, []).append(val)
+    """total plaintext bytes of a case; 'small' is biased towards tiny and empty,
+    the others towards exact multiples of 32768 now and then"""
+    lo, hi = SIZES[size]; n = rng.randint(lo, hi)
+    if size == 'small' and rng.random() < 0.25: return rng.randint(0, 20)
+    if size != 'small' and rng.random() < 0.15: return max(32768, n // 32768 * 32768)
+    return n
